@@ -74,6 +74,14 @@ def main():
     if not ok:
         notes.append('coq build failures: ' + ', '.join(failed))
     obligations = sorted(glob.glob(os.path.join(C.COQ, 'Props', prop, '*.v')))
+    # obligations of OTHER properties that this property's theorems presuppose (e.g. the DAG chain rule presupposes the sparse operator algebra):
+    # a change that breaks them breaks this property too, so they are re-checked here
+    for imp in getattr(mod, 'IMPORTS', []):
+        f = os.path.join(C.COQ, 'Props', imp + '.v')
+        if os.path.exists(f):
+            obligations.append(f)
+        else:
+            broken.append(f'imported obligation {imp} is missing')
     obl = []
     for f in obligations:
         r = C.compile_obligation(os.path.relpath(f, C.COQ))
